@@ -2,8 +2,9 @@
 
 Mode: lattice sweep (complete finite products), plus a history part: the lru_cache of the marginal tail integral, copies of a
 used model (shallow / deep / pickle / dill, before and after truncation, then the copy or the original re-parametrised), a second
-model used in between, ONE used model walked through the copulas by the public setters, the construction route of the model
-under test, and the integrity of the containers handed to the model (not modified, not kept).
+model used in between, a TWIN model alive at the same time that differs in exactly one constructor argument, ONE used model
+walked through the copulas by the public setters, the construction route of the model under test, and the integrity of the
+containers handed to the model (not modified, not kept).
 
 Alphabet
   models     mc.alphabets.copula_model_specs(tier) (pairs and triples of HEM / VG / CGMY 0.5 / CGMY 1.2 / Merton margins under
@@ -76,7 +77,25 @@ Alphabet
              scalars and with a numpy int64 coordinate index, tail_integrals(x=ndarray), margin_tail_integral(indices=, x=tuple),
              inverse_tail_integral(i=, x=numpy scalar) (the form of process.levycopulaseries).
 
+  twins      TWIN_BASES (hem,vg / cgmy05,merton / hem,vg,cgmy05 Clayton(0.7,0.3); cgmy12,hem2 Clayton(3,1); exponential hem,cgmy05
+             Clayton(0.7,0.3); vg,hem independent) x every model that differs from the base in EXACTLY ONE constructor argument:
+             every parameter of every margin family in turn (hem: sigma p eta1 eta2 intensity; merton: sigma sigma_j mu_j intensity;
+             vg: sigma nu theta; cgmy: c g m y; values TWIN_BUMPS; a constructor parameter absent from that table is counted
+             twin_constructor_parameter_without_a_twin), spot / r / d of the exponential form of the last margin, theta and eta of
+             the Clayton copula, the class of the copula, the order of the margins (rotation). Both tiers: every twin of every base
+             (quick: the independent base has 4 twins). Rectangles: first numeric instances of the 8 types (d = 3: 5 types), all
+             index subsets; abscissae POINTS_SUB; inverse targets 0.5, -0.5, 0.01, -2.
+
 Sub-checks (sub = ...)
+  twins      two models alive in one process that differ in one argument (e.g. only in p of a double-exponential margin, which
+             HEMParameters.__repr__ does not print): the twin is built and asked first; then a base model and a second twin are
+             asked ALTERNATELY (even rectangles / abscissae base first, odd ones twin first) for the same rectangles (mass,
+             fast path, _mass_nd, sub-families), marginal tail integrals and inverse tail integrals, EACH against the reference
+             built from its own values (keys C12:twins:<family.param | copula.theta | copula.eta | copula.class | margins.order |
+             exp.arg>:...). Bit for bit: twin asked beside the base = twin asked first; a base model built afterwards = the base;
+             deepcopy / dill copy of either = its original; copula / order twins: a model built around the margin OBJECTS of the used
+             base = the twin, and the base unchanged by it. Hygiene: base == twin is False, != is True, the two are two members of a
+             set and two keys of a dict (unhashable models are counted, not judged).
   rect       per rectangle: finite; mass >= -slack; fast path (model.mass, _mass_2d/_mass_3d) = _mass_nd; = reference mass
              (mc.oracle.ref_rectangle_mass and the zero-aware reference of this module); additivity under every split
   subfamily  (+ index lists of size >= 2, the full family included, in every order with the intervals permuted along: same
@@ -206,7 +225,9 @@ RULE = (
     "contain the origin, x all alphabet split points per coordinate (zero written +0.0 and -0.0), x all index subsets, x "
     "construction routes (direct / reinit / reused / swapped), x spellings of the end points and of the index family, x all "
     "ordered pairs of copulas on one used model, x kinds of copy x object re-parametrised x target copula; identical margins; "
-    "empty intervals; Clayton models x all orthants x tuples of finite intervals inside the orthant for the integral of the joint "
+    "empty intervals; base models x all models differing from them in exactly one constructor argument (margin parameter, "
+    "exponential-form argument, copula parameter, copula class, order of the margins), both alive and asked alternately; "
+    "Clayton models x all orthants x tuples of finite intervals inside the orthant for the integral of the joint "
     "density (formula written here and the library's x_first_derivative, d = 2 and 3); extra models (Merton / HEM2 margins, "
     "theta = 0.1 and 6); a case is non-trivial when at "
     "least one mass of the real model was compared with the reference or with another route of the real code; "
@@ -221,6 +242,8 @@ ASSUMPTIONS = [
     "like a constructor argument: the used model must then equal a freshly constructed one; in-place changes of a margin inside "
     "a constructed copula model are not covered",
     "-0.0 and 0.0, and float / numpy.float64 / ndarray carriers, denote the same end points",
+    "two models constructed with different arguments are different models: they do not compare equal and are distinct keys of a "
+    "dict (whatever __eq__ / __hash__ the class defines); the answers of a model do not depend on which other models are alive",
     "a deep copy (copy.deepcopy, pickle, dill) of a model is an independent model: re-parametrising one of the two through the "
     "public setters leaves the other one as it was; for |y| beyond the value of U at +-1e-12 the inverse tail integral is a "
     "point of [0, 1e-12] on the side of y (generalised inverse of a monotone function)",
@@ -295,6 +318,25 @@ EXTRA_SPECS = [
     {"margins": ["merton", "cgmy12"], "copula": {"kind": "clayton", "theta": 6.0, "eta": 0.8}},
     {"margins": ["hem", "vg", "cgmy05"], "copula": {"kind": "clayton", "theta": 0.1, "eta": 0.5}},
     {"margins": ["merton", "hem2", "vg"], "copula": {"kind": "clayton", "theta": 6.0, "eta": 0.8}},
+]
+# sub = twins: a second model that differs from the base model in EXACTLY ONE constructor argument, alive at the same time.
+# value given to the one parameter that differs (none of them occurs in mc.alphabets' parameter sets or defaults)
+TWIN_BUMPS = {
+    "hem": {"sigma": 0.08, "p": 0.4, "eta1": 12.0, "eta2": 33.0, "intensity": 4.5},
+    "merton": {"sigma": 0.08, "sigma_j": 0.08, "mu_j": 0.025, "intensity": 4.5},  # mu_j < 0 is rejected by the parameter class
+    "vg": {"sigma": 0.15, "nu": 0.1, "theta": -0.05},
+    "cgmy": {"c": 0.6, "g": 9.0, "m": 12.0, "y": 0.8},  # y: 1.4 when the base has y >= 1 (stays on the same side of 1)
+}
+TWIN_EXP_BUMPS = {"spot": 80.0, "r": 0.05, "d": 0.03}  # arguments of the exponential form of a margin
+_C73 = {"kind": "clayton", "theta": 0.7, "eta": 0.3}
+# (base spec, exponential form, what differs in quick: "all" = every single-argument twin; thorough = everything for every base)
+TWIN_BASES = [
+    ({"margins": ["hem", "vg"], "copula": _C73}, False, "all"),
+    ({"margins": ["cgmy05", "merton"], "copula": _C73}, False, "all"),
+    ({"margins": ["cgmy12", "hem2"], "copula": {"kind": "clayton", "theta": 3.0, "eta": 1.0}}, False, "all"),
+    ({"margins": ["hem", "cgmy05"], "copula": _C73}, True, "all"),
+    ({"margins": ["hem", "vg", "cgmy05"], "copula": _C73}, False, "all"),
+    ({"margins": ["vg", "hem"], "copula": {"kind": "independent"}}, False, ("hem.p", "vg.nu", "copula.class", "margins.order")),
 ]
 LRU_SWEEP = 1100  # more distinct abscissae per coordinate than the 2**10 entries of the memo of the marginal tail integral
 
@@ -423,6 +465,43 @@ def cases(tier):
         seen.add(key)
         for kind in COPY_KINDS:
             out.append({"sub": "copies", "model": spec, "exp": exp, "kind": kind, "targets": "thorough"})
+    # twins: two models alive at once that differ in exactly one constructor argument
+    for base, exp, which in TWIN_BASES:
+        for what, twin in _twin_specs(base, exp):
+            if thorough or which == "all" or (which == "margins" and not what.startswith(("copula.", "margins.", "exp."))) or what in which:
+                out.append({"sub": "twins", "model": base, "twin": twin, "exp": exp, "what": what})
+    return out
+
+
+def _twin_specs(base, exp):
+    """(what, spec) for every model that differs from `base` in exactly one constructor argument: every parameter of every
+    margin in turn (and, exponential form, spot / r / d of the last margin), each parameter of the copula, the class of the
+    copula, the order of the margins."""
+    out = []
+    for k, name in enumerate(base["margins"]):
+        ms = A.MARGINS[name]
+        for param, value in TWIN_BUMPS[ms["family"]].items():
+            if ms["family"] == "cgmy" and param == "y" and ms["params"]["y"] >= 1:
+                value = 1.4
+            margins = list(base["margins"])
+            margins[k] = dict(ms, params=dict(ms["params"], **{param: value}))
+            out.append((f"{ms['family']}.{param}", dict(base, margins=margins)))
+    if exp:
+        k = len(base["margins"]) - 1
+        for arg, value in TWIN_EXP_BUMPS.items():
+            margins = list(base["margins"])
+            margins[k] = dict(A.MARGINS[margins[k]], **{arg: value})
+            out.append((f"exp.{arg}", dict(base, margins=margins)))
+    c = base["copula"]
+    if c["kind"] == "clayton":
+        out.append(("copula.theta", dict(base, copula=dict(c, theta=3.0 if c["theta"] != 3.0 else 0.7))))
+        out.append(("copula.eta", dict(base, copula=dict(c, eta=1.0 if c["eta"] != 1.0 else 0.3))))
+        out.append(("copula.class", dict(base, copula={"kind": "independent"})))
+    else:
+        out.append(("copula.class", dict(base, copula={"kind": "dependent" if c["kind"] == "independent" else "independent"})))
+    m = list(base["margins"])
+    if len(set(m)) > 1:
+        out.append(("margins.order", dict(base, margins=m[1:] + m[:1])))
     return out
 
 
@@ -452,12 +531,20 @@ def _twin_list(tier):
 # context: the real model + independently built ingredients of the reference
 # ----------------------------------------------------------------------------------------------------------------------
 
+def _margin_spec(entry, exp):
+    """1-d model spec of a margin entry: a name of mc.alphabets.MARGINS, or (sub = twins) a 1-d spec written out, which may
+    carry its own r / d / spot for the exponential form."""
+    ms = dict(A.MARGINS[entry]) if isinstance(entry, str) else dict(entry)
+    if exp:  # same transformation as alphabets.make_copula_model (exponential models have their own defaults)
+        ms = dict({"r": 0.02, "d": 0.0, "spot": 100.0}, **ms)
+        ms["exp"] = True
+    return ms
+
+
 def _margin_models(spec, exp, via=None):
     out = []
     for name in spec["margins"]:
-        ms = dict(A.MARGINS[name])
-        if exp:  # same transformation as alphabets.make_copula_model (exponential models have their own defaults)
-            ms = dict(ms, exp=True, r=0.02, d=0.0, spot=100.0)
+        ms = _margin_spec(name, exp)
         if via:
             ms = dict(ms, via=via)
         out.append(A.make_model(ms))
@@ -493,7 +580,9 @@ def build_model(spec, exp=False, route="direct"):
     c = spec["copula"]
     d = len(spec["margins"])
     if route == "direct":
-        return A.make_copula_model(spec, exp=exp)
+        if all(isinstance(m, str) for m in spec["margins"]):
+            return A.make_copula_model(spec, exp=exp)
+        return create_levy_copula_model(models=_margin_models(spec, exp), copula=A.make_copula(c))
     if route == "reinit":
         cop = A.make_copula(DONOR_CLAYTON if c["kind"] == "clayton" else c)
         if c["kind"] == "clayton":
@@ -535,10 +624,7 @@ class Ctx:
         self._margins = {}
 
     def _fresh_margin(self, name):
-        ms = dict(A.MARGINS[name])
-        if self.exp:  # same transformation as alphabets.make_copula_model (exponential models have their own defaults)
-            ms = dict(ms, exp=True, r=0.02, d=0.0, spot=100.0)
-        return A.make_model(ms)
+        return A.make_model(_margin_spec(name, self.exp))
 
     def fresh_model(self, route=None):
         return build_model(self.spec, exp=self.exp, route=route or self.route)
@@ -1590,6 +1676,142 @@ def _sub_copies(sh, case):
             sh.outcome((kind, op, touched, got_obj[0], got_other[0]))
     sh.count("copy_then_reparametrise", n)
     sh.nontriv()
+
+
+# ----------------------------------------------------------------------------------------------------------------------
+# twins: two models alive at once that differ in exactly one constructor argument
+# ----------------------------------------------------------------------------------------------------------------------
+
+def _sub_twins(sh, case):
+    """case["model"] and case["twin"] differ in exactly one constructor argument (case["what"]). The twin is built and asked
+    first (what a fresh process would answer); then a base model and a second twin are built, both alive, and asked
+    ALTERNATELY (even rectangles: base first, odd ones: twin first) for the same rectangles, abscissae and inverse targets,
+    each judged against the reference built from ITS OWN values. Then bit for bit: the twin asked beside the base = the twin
+    asked first; a base model built afterwards = the base; deep copies / dill copies = their originals. Hygiene: the two
+    models do not compare equal and are two keys of a dict / two members of a set."""
+    import copy
+    import inspect
+
+    what = case["what"]
+    tcase = dict(case, model=case["twin"])
+    ctxB0 = Ctx(tcase)
+    d = ctxB0.d
+    Q = _queries(ctxB0, small=True) + [("inv", i, y, None) for i in range(d) for y in (0.5, -0.5)]
+    rB0 = [_ask(ctxB0.model, q) for q in Q]
+    ctxA, ctxB = Ctx(case), Ctx(tcase)
+    A_, B_ = ctxA.model, ctxB.model
+    sub = f"twins:{what}"
+    # the table of values covers every constructor parameter of the family that is varied
+    fam = what.split(".")[0]
+    if fam in TWIN_BUMPS:
+        for mdl in A_.models:
+            prm = getattr(getattr(mdl, "levy_model", mdl), "parameters", None)
+            if prm is not None and type(prm).__name__.lower().startswith(fam):
+                names = [n for n in inspect.signature(type(prm).__init__).parameters if n != "self"]
+                missing = sorted(set(names) - set(TWIN_BUMPS[fam]))
+                if missing:
+                    sh.count("twin_constructor_parameter_without_a_twin", len(missing))
+                    sh.note(f"twins: constructor parameters of {type(prm).__name__} without a twin: {missing}")
+    # ---- hygiene: different models are different keys
+    sh.count("evaluations", 3)
+    try:
+        if A_ == B_ or not (A_ != B_):
+            sh.violation(f"C12:twins:{what}:equal-to-a-different-model:d={d}", f"two models that differ in {what} compare equal", {"base": case["model"], "twin": case["twin"]})
+    except Exception as e:
+        sh.violation(f"C12:twins:{what}:comparison-raises-{type(e).__name__}:d={d}", f"== of two models raised {e!r}", {})
+    try:
+        if len({A_, B_}) != 2 or {A_: "base"}.get(B_) is not None or {B_: "twin"}.get(A_) is not None:
+            sh.violation(f"C12:twins:{what}:one-dictionary-key-for-two-different-models:d={d}", f"two models that differ in {what} are one key of a dict / one member of a set",
+                         {"base": case["model"], "twin": case["twin"]})
+    except TypeError:
+        sh.count("twin_models_not_hashable")
+    # ---- alternately, each against its own reference
+    rects = _rect_list(ctxA, types=None if d == 2 else SMALL_TYPES, zeros=0)
+    for j, (I, a, b) in enumerate(rects):
+        for ctx in ((ctxA, ctxB) if j % 2 == 0 else (ctxB, ctxA)):
+            m = _check_rectangle(sh, ctx, I, a, b, len(I) == d, sub, use_oracle_ref=False)
+            if m is not None and ctx is ctxB:
+                sh.outcome(float(m).hex())
+    j = 0
+    for i in range(d):
+        for x in POINTS_SUB:
+            j += 1
+            for who, ctx in ((("base", ctxA), ("twin", ctxB)) if j % 2 == 0 else (("twin", ctxB), ("base", ctxA))):
+                sh.count("evaluations")
+                act = "finite" if ctx.fa[i] else "infinite"
+                try:
+                    v = float(ctx.model.marginal_tail_integral(i, x))
+                except Exception as e:
+                    sh.violation(f"C12:{sub}:marginal_tail_integral:raises-{type(e).__name__}:side={_side(x)}:activity={act}", f"U_{i}({x}) of the {who} raised {e!r}", {"i": i, "x": x})
+                    continue
+                ref = ctx.U(i, x)
+                if not core.close(v, ref, rtol=1e-12, atol=0.0):
+                    sh.violation(f"C12:{sub}:marginal_tail_integral:differs-from-sign-nu-I:side={_side(x)}:activity={act}",
+                                 f"U_{i}({x}) of the {who} (two models alive that differ in {what}) = {v}, sign(x) nu(I(x)) of its own margin = {ref}",
+                                 {"i": i, "x": x, "who": who, "value": v, "reference": ref})
+        for y in (0.5, -0.5, 0.01, -2.0):
+            j += 1
+            for who, ctx in ((("base", ctxA), ("twin", ctxB)) if j % 2 == 0 else (("twin", ctxB), ("base", ctxA))):
+                _twin_inverse(sh, ctx, i, y, sub, who)
+    # ---- bit for bit: a model answers what it answers when it is built and asked first / alone
+    rA = [_ask(A_, q) for q in Q]
+    rB = [_ask(B_, q) for q in Q]
+    rA1 = [_ask(ctxA.fresh_model(), q) for q in Q]
+
+    def cmp(x, y, text, key):
+        for q, u, v in zip(Q, x, y):
+            sh.count("evaluations")
+            if u != v:
+                sh.violation(f"C12:twins:{what}:{_qclass(q)}:{key}:d={d}", f"{q[0]}{q[1:]} {text}: {u} vs {v}", {"query": q, "first": u, "second": v})
+
+    cmp(rB0, rB, f"differs between a model built and asked first and the same model asked alternately with a model that differs in {what}", "differs-from-the-same-model-asked-first")
+    cmp(rA, rA1, f"differs on a fresh model built after a model that differs in {what} was used", "differs-from-the-same-model-built-later")
+    for who, mdl, res in (("base", A_, rA), ("twin", B_, rB)):
+        for kind in ("deepcopy", "dill"):
+            c = _copy_of(sh, mdl, kind)
+            if c is not None:
+                cmp(res, [_ask(c, q) for q in Q], f"differs on a {kind} of the {who}", f"copy-differs:{kind}")
+    if what.startswith(("copula.", "margins.")):
+        # the way a script walks through copulas / orders: a NEW model around the SAME margin objects as the used base model
+        from rpylib.model.utils import create_levy_copula_model
+
+        if what.startswith("copula."):
+            shared = create_levy_copula_model(models=list(A_.models), copula=A.make_copula(case["twin"]["copula"]))
+        else:
+            shared = create_levy_copula_model(models=list(A_.models[1:]) + list(A_.models[:1]), copula=A.make_copula(case["twin"]["copula"]))
+        cmp(rB, [_ask(shared, q) for q in Q], f"differs on a model built around the margin OBJECTS of a used model that differs in {what}", "differs-on-a-model-sharing-the-margin-objects")
+        cmp(rA, [_ask(A_, q) for q in Q], f"changed after a model sharing its margin objects (differing in {what}) was used", "changed-by-a-model-sharing-the-margin-objects")
+        sh.cls("twins:shared-margin-objects")
+    if any(v.startswith("raised") for v in rB0):
+        bad = next(q for q, v in zip(Q, rB0) if v.startswith("raised"))
+        sh.violation(f"C12:twins:{what}:{bad[0]}:raises:d={d}", f"query {bad} raised on a fresh model", {"query": bad})
+    sh.cls(f"twins:{what}:d={d}")
+    sh.count("twin_pairs")
+    sh.nontriv()
+
+
+def _twin_inverse(sh, ctx, i, y, sub, who):
+    """U_i(inverse_tail_integral(i, y)) = y with U_i the tail integral of the model's OWN margin (reference), or, for |y| beyond
+    the value of U_i at +-1e-12, 0 <= sign(y) x <= 1e-12 (as in `tails`)."""
+    act = "finite" if ctx.fa[i] else "infinite"
+    sg = 1.0 if y > 0 else -1.0
+    beyond = abs(y) > abs(ctx.U(i, sg * 1e-12))
+    sh.count("evaluations")
+    try:
+        xb = float(ctx.model.inverse_tail_integral(i, y))
+    except Exception as e:
+        sh.violation(f"C12:{sub}:inverse_tail_integral:raises-{type(e).__name__}:side={_side(y)}:activity={act}", f"inverse_tail_integral({i}, {y}) of the {who} raised {e!r}", {"i": i, "y": y})
+        return
+    if beyond:
+        if not (0.0 <= sg * xb <= 1e-12):
+            sh.violation(f"C12:{sub}:inverse_tail_integral:not-zero-beyond-the-range:side={_side(y)}:activity={act}",
+                         f"inverse_tail_integral({i}, {y}) of the {who} = {xb}, but |y| exceeds |U_{i}({sg * 1e-12})| of its own margin", {"i": i, "y": y, "x": xb, "who": who})
+        return
+    y_atol = 16 * 2.0 ** -52 * abs(ctx.U0(i, +1 if y > 0 else -1)) if ctx.fa[i] else 0.0
+    ref_yb = ctx.U(i, xb) if xb != 0 else math.nan
+    if not core.close(ref_yb, y, rtol=1e-9, atol=y_atol):
+        sh.violation(f"C12:{sub}:inverse_tail_integral:U-of-inverse-differs:side={_side(y)}:activity={act}",
+                     f"x = inverse_tail_integral({i}, {y}) of the {who} = {xb}; the tail integral of its own margin there is {ref_yb}", {"i": i, "y": y, "x": xb, "refU": ref_yb, "who": who})
 
 
 # ----------------------------------------------------------------------------------------------------------------------
